@@ -1,8 +1,12 @@
-(** C09 — verdict functions for the cases of harness/cmd/tdc (-prop C09). *)
-From Verif Require Import Base.Prelude Model.Tdc.
-From Verif Require Judge.Tdc.
-Export Judge.Tdc.
-Definition case := Judge.Tdc.case.
-Definition agree : case -> bool := Judge.Tdc.agree.
-Definition spec : case -> bool := Judge.Tdc.spec_c09.
-Definition nontrivial : case -> bool := Judge.Tdc.nontrivial_c09.
+(** C09 — verdict functions for harness/cmd/c09: schedules on the established connection (Judge.Tdc)
+    and on the still-dialing connection (Judge.Lazy). *)
+From Verif Require Import Base.Prelude.
+From Verif Require Judge.Tdc Judge.Lazy.
+Export Judge.Tdc Judge.Lazy.
+Inductive case := KTdc (c : Judge.Tdc.case) | KLazy (c : Judge.Lazy.case).
+Definition agree (c : case) : bool :=
+  match c with KTdc x => Judge.Tdc.agree x | KLazy x => Judge.Lazy.agree x end.
+Definition spec (c : case) : bool :=
+  match c with KTdc x => Judge.Tdc.spec_c09 x | KLazy x => Judge.Lazy.spec_c09 x end.
+Definition nontrivial (c : case) : bool :=
+  match c with KTdc x => Judge.Tdc.nontrivial_c09 x | KLazy x => Judge.Lazy.nontrivial_c09 x end.
